@@ -415,6 +415,24 @@ def run(ctx: Ctx) -> int:
                     fn=fn,
                 )
     ctx.floor("C04.e-flag-calls", n_flag_calls, 5)
+    # the environment SOURCE is the mapping the caller gave; the process environment stands in only when none was
+    # given (`is None`) - an empty mapping is a given source with no variables
+    from .util import guard_atoms as _ga
+
+    n_envfb = 0
+    for fq, fn in ctx.repo.all_funcs():
+        if not fq.startswith("_core:"):
+            continue
+        for s in walk_local(fn):
+            if not (isinstance(s, ast.Assign) and ast.unparse(s.value) == "os.environ" and isinstance(s.targets[0], ast.Name)):
+                continue
+            n_envfb += 1
+            v = s.targets[0].id
+            at = _ga(s, stop=None)
+            inner = [(t, p) for t, p in at if v in {n.id for n in ast.walk(t) if isinstance(n, ast.Name)}]
+            ok = bool(inner) and all(isinstance(t, ast.Compare) and isinstance(t.left, ast.Name) and t.left.id == v and isinstance(t.comparators[0], ast.Constant) and t.comparators[0].value is None and ((isinstance(t.ops[0], ast.Is) and p) or (isinstance(t.ops[0], ast.IsNot) and not p)) for t, p in inner)
+            ctx.oblige("C04.e", ok, s, f"os.environ stands in only when no `{v}` mapping was given" if ok else f"`{v} = os.environ` runs under `{' and '.join(('' if p else 'not ') + ast.unparse(t) for t, p in inner) or 'no test of ' + v}`: a given environment that holds no variable (parse_env({{}})) is replaced by the process environment - variables of os.environ are folded into a result whose sources do not contain them", fn=fn)
+    ctx.floor("C04.e-environ-fallback", n_envfb, 1)
 
     # ---- C04.f who may combine two sources -------------------------------------------------------------
     # a whole-namespace `X.update(Y)` (no key) is how two sources are folded; only merge_config may do it,
